@@ -1,4 +1,4 @@
-// Driver for C12 (claims codec and sealing). Slice 1: sealing.
+// Driver for C12 (claims codec and sealing). Sealing cases here, codec cases in codec.go.
 package main
 
 import (
@@ -54,7 +54,8 @@ func main() {
 	cfg := drv.Parse()
 	r := drv.NewRand(cfg.Seed)
 	w := emit.NewWriter(cfg.Out, "C12_spec", 0, cfg.Only)
-	n := cfg.Count(300, 6000)
+	n := cfg.Count(240, 6000)
+	codecCases(w, r, cfg.Count(520, 16000))
 
 	keyLens := []int{16, 24, 32, 16, 24, 32, 32, 32, 0, 15, 17, 31, 33, 64}
 	for i := 0; i < n; i++ {
@@ -161,7 +162,7 @@ func main() {
 		}
 	}
 	err := w.Close(emit.Meta{Property: "C12", Tier: cfg.Tier, Seed: cfg.Seed,
-		Rule: "seal/open cases: random keys (valid and invalid lengths), IVs, plaintexts around block boundaries; arbitrary/tampered strings to DecryptAES. Non-trivial = model path class != 0 (a successful seal or a decode attempt); distinct = distinct (input hash, path class).",
+		Rule: "codec: generated values of the 8 claim/response types (custom keys colliding with registered names, nested actors, nil/empty slices and maps) through json.Marshal/Unmarshal of the real types; valid documents with members replaced by alternative/malformed forms fed to the real decoders (and re-marshalled when accepted); stand-alone Audience/Time/Bool/SpaceDelimitedArray/Locales decoders; the schema read off the struct tags. seal/open cases: random keys (valid and invalid lengths), IVs, plaintexts around block boundaries; arbitrary/tampered strings to DecryptAES. Non-trivial = model path class != 0 (anything but a wrong-key-length seal or a non-object document); distinct = distinct (input hash, path class).",
 	})
 	if err != nil {
 		fmt.Fprintln(os.Stderr, err)
